@@ -425,17 +425,9 @@ theorem out_form (mu sigma s x : ℝ) : Normal.out mu sigma s x = s * x * sigma 
 theorem sign_pm (u : UInt64) : ((if u &&& 0x80 != 0 then (1 : ℝ) else -1) = 1 ∨ (if u &&& 0x80 != 0 then (1 : ℝ) else -1) = -1) := by
   split_ifs <;> simp
 
-/-! ### Gamma with a zero boosting uniform -/
+/-! ### Gamma with a zero boosting uniform
 
-/-- Below shape 1 a boosting uniform equal to `0` makes the draw exactly `0`. -/
-theorem gamma_zero_of_zero_uniform (fuel : ℕ) (a b : ℝ) (ha0 : 0 < a) (ha : a < 1) (g g' : Rng) (x : ℝ)
-    (hu : (g.f64 (α := ℝ)).1 = 0) (h : Gamma.sample fuel a b g = some (x, g')) : x = 0 := by
-  rw [C03.gamma_boost fuel a b ha0.le ha] at h
-  cases hs : Gamma.sample fuel (a + 1) b (g.f64 (α := ℝ)).2 with
-  | none => simp [hs] at h
-  | some r =>
-    simp [hs] at h
-    rw [← h.1, hu, Real.zero_rpow (by positivity)]
-    simp
+Before repair F54 a boosting uniform equal to `0` made the draw exactly `0` (`gamma_zero_of_zero_uniform`, removed: the code
+now redraws, `C03.gamma_support_lt_one` proves `0 < x` for every returning call). -/
 
 end Cv.C03Support
